@@ -365,6 +365,9 @@ def corr_mask(res, rng, n):
 
         st, eq = Stub(), Stub()
         st.nx, st.ny = 1, 1
+        # the mask is a property of the cell and the wall only: regions with and without targets are treated alike
+        st.connections = {"lower": rng.choice([None, 3]), "upper": rng.choice([None, 4]), "inner": rng.choice([None, 1]), "outer": rng.choice([None, 2])}
+        st.name, st.myID, st.radialIndex = "stub", 0, 0
         st.Rxy, st.Zxy = MultiLocationArray(1, 1), MultiLocationArray(1, 1)
         st.Rxy.ylow = np.array([[p1[0], p2[0]]])
         st.Zxy.ylow = np.array([[p1[1], p2[1]]])
